@@ -68,6 +68,8 @@ def run_task(task):
         extra = {"PYTHONHASHSEED": str(env_spec["hashseed"]), "VERIF_CHAIN_LOG": log}
         if env_spec.get("delays"):
             extra["VERIF_CHAIN_DELAYS"] = json.dumps(env_spec["delays"])
+        if env_spec.get("clock_skew"):
+            extra["VERIF_CLOCK_SKEW"] = json.dumps({"seed": env_spec["clock_skew"], "max": 0.02})
         env = cli_env(extra)
         if env_spec["hashseed"] == "random":
             env["PYTHONHASHSEED"] = "random"
@@ -240,7 +242,7 @@ def run(ctx):
     ctx.rule = ("real `phyclone run --seed S` subprocesses: configurations proposal x outliers x clustered/unclustered "
                 "(string mutation ids) x chains in {1,2,4}; each run under a reference environment and under perturbed "
                 "ones (hash seeds 1/12345/random, one core via taskset, nice, concurrent load, failpoint delays reversing "
-                "and rotating chain completion); per chain exact equality of (iter, alpha, log_p_one bits, tree key, "
+                "and rotating chain completion, a failpoint perturbing every clock reading on grids 300 / 501); per chain exact equality of (iter, alpha, log_p_one bits, tree key, "
                 "labels); plus in-process pairs of the same seeded chain under different ambient random state (numpy global "
                 "RandomState, random module) with cold caches, over small configurations that visit rare branches; "
                 "distinct = (configuration, environment)")
@@ -275,6 +277,13 @@ def run(ctx):
     stress.append({"id": 110, "proposal": "semi-adapted", "outlier_prob": 0.0, "clustered": False, "chains": 3, "n_mut": 6,
                    "iters": 80, "subtree": 0.2, "run_seed": 31 + ctx.seed, "stress": "cores", "branching": True,
                    "density": "binomial", "grid": 101, "particles": 8})
+    # clocks: the same seed with every clock reading perturbed (seeded drift failpoint), on grids between the default and
+    # the FFT switch and at the default -- anything tuned, scheduled or cut short by measured time shows up as a
+    # different trace
+    for j, (grid, nm) in enumerate([(300, 5), (501, 4)] + ([] if quick else [(101, 6), (257, 5), (999, 3), (1000, 3)])):
+        stress.append({"id": 120 + j, "proposal": ["semi-adapted", "fully-adapted"][j % 2], "outlier_prob": 0.0, "clustered": False,
+                       "chains": 1 + j % 2, "n_mut": nm, "iters": 5, "subtree": 0.2, "run_seed": 41 + j + ctx.seed,
+                       "stress": "clock", "grid": grid, "particles": 4, "branching": j % 2 == 0})
     cfgs = cfgs + stress
     tasks = []
     for cfg in cfgs:
@@ -282,6 +291,9 @@ def run(ctx):
         if cfg.get("stress") == "cores":
             envs = [{"name": "all cores", "hashseed": 0}, {"name": "one core", "hashseed": 0, "one_core": True},
                     {"name": "two cores", "hashseed": 0, "cores": 2}]
+        elif cfg.get("stress") == "clock":
+            envs = [{"name": "real clocks", "hashseed": 0}] + [
+                {"name": "clock drift %d" % k, "hashseed": 0, "clock_skew": k} for k in (1, 2, 3, 4, 5)]
         elif cfg.get("stress"):
             envs = [{"name": "hashseed %s" % h, "hashseed": h} for h in (0, 1, 2, 3)]
         for env in envs:
@@ -331,7 +343,7 @@ def run(ctx):
                 if a != b:
                     first = next((i for i, (x, y) in enumerate(zip(a, b)) if x != y), min(len(a), len(b)))
                     ctx.violation("seeded run is not reproducible: chain trace differs under another environment "
-                                  "(hash seed / cores / chain scheduling)",
+                                  "(hash seed / cores / chain scheduling / clock readings)",
                                   {"cfg": cfg, "reference_env": ref_env["name"], "env": env["name"], "chain": ch,
                                    "first_differing_entry": first,
                                    "reference": a[first] if first < len(a) else None,
